@@ -137,7 +137,7 @@ ARG_POOL = [
     "'\\p{L}+'", "'\\P{IsBasicLatin}'", "'[a-z-[aeiou]]'", "'(a|b)*c{2,3}?'", "'^.*$'", "'\\1'", "'(?i)a'", "'a{99999}'",
     '0', '1', '-1', '2', '3', '10', '255', '1.5', '-0.0e0', '1e308', '1e-320', '0.1', '1e0', '4.5', '-2.5',
     'xs:double("NaN")', 'xs:double("INF")', 'xs:float("-INF")', 'xs:float("1.5")', '12345678901234567890123456789',
-    '2147483648', '-9223372036854775809', '1114112', '55296', '0.000000000000000000000000000001', '1e400', '-1e400',
+    '2147483648', '-9223372036854775809', '1114112', '55296', '1' + '0' * 310, '0.000000000000000000000000000001', '1e400', '-1e400',
     'true()', 'false()', '()', '(1, 2, 3)', "('a', 'b')", '(1, "a")', '(1 to 5)', '(3, 1, 2)', '(0, -1)',
     '[1, 2]', '[]', '[(), (1, 2)]', '[[1], [2, [3]]]', 'map{}', "map{'a': 1}", 'map{1: (1, 2)}', "map{'liberal': true()}",
     "map{'duplicates': 'reject'}", "map{'duplicates': 'nope'}", "map{'method': 'xml', 'indent': true()}", "map{'escape': 1}",
